@@ -731,3 +731,113 @@ def in_domain(doc):
     except ZeroDivisionError:
         return False, None
     return A.big < T52, r
+
+
+# ---------------------------------------------------------------------------------------------
+# shrinking and running
+# ---------------------------------------------------------------------------------------------
+def shrink_doc(doc, fails, budget=150):
+    """Greedy delta-debugging over the document structure; `fails(doc) -> bool`."""
+    import copy
+    cur = copy.deepcopy(doc)
+    n = 0
+
+    def candidates(d):
+        for i in range(len(d.get("lines", []))):
+            if len(d["lines"]) > 1:
+                yield ("del-line", i)
+        for k in ("discounts", "charges", "payment", "exchange_rates"):
+            if k in d:
+                yield ("del", k)
+        for i, l in enumerate(d.get("lines", [])):
+            for k in ("discounts", "charges", "breakdown", "taxes"):
+                if k in l:
+                    yield ("del-l", i, k)
+            if "currency" in l["item"] and not d.get("exchange_rates") is None:
+                yield ("plain-item", i)
+        if "tax" in d:
+            for k in list(d["tax"].keys()):
+                yield ("del-tax", k)
+
+    def apply(d, c):
+        d = copy.deepcopy(d)
+        if c[0] == "del-line":
+            del d["lines"][c[1]]
+        elif c[0] == "del":
+            del d[c[1]]
+        elif c[0] == "del-l":
+            del d["lines"][c[1]][c[2]]
+        elif c[0] == "plain-item":
+            it = d["lines"][c[1]]["item"]
+            it.pop("currency", None)
+            it.pop("alt_prices", None)
+        elif c[0] == "del-tax":
+            del d["tax"][c[1]]
+            if not d["tax"]:
+                del d["tax"]
+        return d
+    progress = True
+    while progress and n < budget:
+        progress = False
+        for c in list(candidates(cur)):
+            n += 1
+            if n >= budget:
+                break
+            try:
+                t = apply(cur, c)
+                if fails(t):
+                    cur = t
+                    progress = True
+                    break
+            except Exception:
+                continue
+    return cur
+
+
+def run3(docs, prefix="c01", op_="calc"):
+    """Go, model and python oracle on the same documents. Returns list of dicts."""
+    from vlib import run_go, run_oracle, parse_wire
+    jl, wl, pr = [], [], []
+    for d in docs:
+        ok, r = in_domain(d)
+        pr.append((ok, r))
+        jl.append(json_line(op_, d, prefix))
+        try:
+            wl.append(wire_line(op_, d, prefix))
+        except (ValueError, KeyError):
+            wl.append("%s %s ( )" % (prefix, op_))
+    go = run_go(jl)
+    mo = run_oracle(wl)
+    out = []
+    for d, (ok, r), g, m in zip(docs, pr, go, mo):
+        pv = [[b"err", b"calc"]] if r == "calc-error" else r
+        out.append({"doc": d, "in_domain": ok, "go": parse_wire(g), "model": parse_wire(m), "py": pv, "go_raw": g, "model_raw": m})
+    return out
+
+
+def excess_fixed(doc, pyres):
+    """True when a fixed (non-percentage, non-rate) discount / charge / advance amount carries more
+    decimals than the precision it is presented with (line rows: the stored item price's; document rows
+    and advances: the currency's). Presentation rounding of such an input feeds back into the next calculation."""
+    cc, cur, c, rr, date = doc_meta(doc)
+    def fixed(x):
+        p = x.get("percent")
+        return "amount" in x and (p is None or parse_pct(p).iszero()) and "rate" not in x
+    try:
+        lines = pyres[1][0] if pyres[0] == b"ok" else pyres[1]
+    except Exception:
+        lines = []
+    for i, l in enumerate(doc["lines"]):
+        e = lines[i][0][1] if i < len(lines) else c
+        for k in ("discounts", "charges"):
+            for x in l.get(k, []):
+                if fixed(x) and parse(x["amount"]).e > e:
+                    return True
+    for k in ("discounts", "charges"):
+        for x in doc.get(k, []):
+            if fixed(x) and parse(x["amount"]).e > (c if "base" not in x else parse(x["base"]).e):
+                return True
+    for a in (doc.get("payment") or {}).get("advances", []):
+        if "amount" in a and a.get("percent") is None and parse(a["amount"]).e > c:
+            return True
+    return False
